@@ -47,6 +47,67 @@ def filler_ctor_facts(ctx: Context, fn: FunctionInfo, call: ast.Call,
     return None, None, fn, call
 
 
+def check_ordered(ctx: Context, rep, rule: str):
+    wm = ctx.fn(WM)
+    cfg = ctx.cfg(wm)
+    # -- C09.ordered ------------------------------------------------------------------
+    rep.rule(
+        rule,
+        "the worker map is order preserving (pool.imap / pool.map / builtin "
+        "map over a zip that lists fillers, arguments and keyword arguments "
+        "in step) and results are unpacked by order-preserving "
+        "comprehensions over all outputs")
+    maps = []
+    for n in cfg.calls():
+        f = n.ast.func
+        name = f.attr if isinstance(f, ast.Attribute) else (
+            f.id if isinstance(f, ast.Name) else None)
+        if name in ORDERED_MAPS | UNORDERED and n.ast.args and \
+                "_wrapper_func" in ast.unparse(n.ast.args[0]):
+            maps.append((n, name))
+    if not maps:
+        raise AnalysisError("C09.ordered: worker map not found")
+    for n, name in maps:
+        rep.ob(rule, name in ORDERED_MAPS, loc=wm.loc(n.ast),
+               where=wm.qualname, construct=short(n.ast, 70),
+               message="results must come back in argument order")
+        p = parent(n.ast)
+        rep.ob(rule, isinstance(p, ast.Call) and isinstance(
+            p.func, ast.Name) and p.func.id == "list", loc=wm.loc(n.ast),
+               where=wm.qualname, construct=short(p, 70),
+               message="all results are collected (list(...)) before the "
+               "pool is closed")
+    zips = [c for c in wm.calls() if isinstance(c.func, ast.Name) and
+            c.func.id == "zip" and len(c.args) == 4]
+    ok_zip = len(zips) == 1 and [short(a) for a in zips[0].args[1:]] == [
+        "dataset_fillers", "custom_arguments", "custom_kwarguments"] and \
+        "repeat(feed_writer)" in ast.unparse(zips[0].args[0])
+    rep.ob(rule, ok_zip, loc=wm.loc(zips[0]) if zips else wm.loc(),
+           where=wm.qualname, construct=short(zips[0], 110) if zips else "",
+           message="writer k gets filler k, arguments k and keyword "
+           "arguments k")
+    wf = ctx.fn(f"{DW}:_wrapper_func")
+    rets = [n for n in wf.body_nodes() if isinstance(n, ast.Return)]
+    unpack = [n for n in wf.body_nodes() if isinstance(n, ast.Assign) and
+              isinstance(n.targets[0], ast.Tuple)]
+    ok_wf = False
+    if len(rets) == 1 and isinstance(rets[0].value, ast.Tuple) and unpack:
+        names = [e.id for e in unpack[0].targets[0].elts]
+        calls = [c for c in wf.calls() if isinstance(c.func, ast.Name) and
+                 c.func.id == names[0]]
+        ok_wf = len(names) == 4 and len(calls) == 1 and \
+            dotted(calls[0].args[0]) == names[1] and \
+            [dotted(e) for e in rets[0].value.elts][0] == names[1] and \
+            ast.unparse(calls[0]) == \
+            f"{names[0]}({names[1]}, *{names[2]}, **{names[3]})"
+    rep.ob(rule, ok_wf, loc=wf.loc(), where=wf.qualname,
+           construct=short(rets[0]) if rets else "<none>",
+           message="the worker calls feed_writer(filler, *args, **kwargs) and "
+           "returns that same filler with the result")
+
+    return maps
+
+
 def run(ctx: Context, rep) -> None:
     rep.not_decided = (
         "equivalence with the sequential run for every schedule of the "
@@ -194,60 +255,7 @@ def run(ctx: Context, rep) -> None:
            message="the sub-directory given to the filler is the one its "
            "context uses")
 
-    # -- C09.ordered ------------------------------------------------------------------
-    rep.rule(
-        "C09.ordered",
-        "the worker map is order preserving (pool.imap / pool.map / builtin "
-        "map over a zip that lists fillers, arguments and keyword arguments "
-        "in step) and results are unpacked by order-preserving "
-        "comprehensions over all outputs")
-    maps = []
-    for n in cfg.calls():
-        f = n.ast.func
-        name = f.attr if isinstance(f, ast.Attribute) else (
-            f.id if isinstance(f, ast.Name) else None)
-        if name in ORDERED_MAPS | UNORDERED and n.ast.args and \
-                "_wrapper_func" in ast.unparse(n.ast.args[0]):
-            maps.append((n, name))
-    if not maps:
-        raise AnalysisError("C09.ordered: worker map not found")
-    for n, name in maps:
-        rep.ob("C09.ordered", name in ORDERED_MAPS, loc=wm.loc(n.ast),
-               where=wm.qualname, construct=short(n.ast, 70),
-               message="results must come back in argument order")
-        p = parent(n.ast)
-        rep.ob("C09.ordered", isinstance(p, ast.Call) and isinstance(
-            p.func, ast.Name) and p.func.id == "list", loc=wm.loc(n.ast),
-               where=wm.qualname, construct=short(p, 70),
-               message="all results are collected (list(...)) before the "
-               "pool is closed")
-    zips = [c for c in wm.calls() if isinstance(c.func, ast.Name) and
-            c.func.id == "zip" and len(c.args) == 4]
-    ok_zip = len(zips) == 1 and [short(a) for a in zips[0].args[1:]] == [
-        "dataset_fillers", "custom_arguments", "custom_kwarguments"] and \
-        "repeat(feed_writer)" in ast.unparse(zips[0].args[0])
-    rep.ob("C09.ordered", ok_zip, loc=wm.loc(zips[0]) if zips else wm.loc(),
-           where=wm.qualname, construct=short(zips[0], 110) if zips else "",
-           message="writer k gets filler k, arguments k and keyword "
-           "arguments k")
-    wf = ctx.fn(f"{DW}:_wrapper_func")
-    rets = [n for n in wf.body_nodes() if isinstance(n, ast.Return)]
-    unpack = [n for n in wf.body_nodes() if isinstance(n, ast.Assign) and
-              isinstance(n.targets[0], ast.Tuple)]
-    ok_wf = False
-    if len(rets) == 1 and isinstance(rets[0].value, ast.Tuple) and unpack:
-        names = [e.id for e in unpack[0].targets[0].elts]
-        calls = [c for c in wf.calls() if isinstance(c.func, ast.Name) and
-                 c.func.id == names[0]]
-        ok_wf = len(names) == 4 and len(calls) == 1 and \
-            dotted(calls[0].args[0]) == names[1] and \
-            [dotted(e) for e in rets[0].value.elts][0] == names[1] and \
-            ast.unparse(calls[0]) == \
-            f"{names[0]}({names[1]}, *{names[2]}, **{names[3]})"
-    rep.ob("C09.ordered", ok_wf, loc=wf.loc(), where=wf.qualname,
-           construct=short(rets[0]) if rets else "<none>",
-           message="the worker calls feed_writer(filler, *args, **kwargs) and "
-           "returns that same filler with the result")
+    maps = check_ordered(ctx, rep, "C09.ordered")
 
     # -- C09.collect -------------------------------------------------------------------
     rep.rule(
@@ -326,6 +334,17 @@ def run(ctx: Context, rep) -> None:
     rep.ob("C09.collect", ok_res, loc=wm.loc(), where=wm.qualname,
            construct=short(res_defs[0]) if res_defs else "<none>",
            message="results are the second components, in output order")
+    # the parent-side merge (grouping per split, accounting, fresh records)
+    from sa.rules import c04
+    c04.check_dump(ctx, rep, "C09.merge")
+    c04.check_fresh_records(ctx, rep, "C09.merge")
+    c04.check_delta(ctx, rep, "C09.merge")
+    rep.rule(
+        "C09.merge",
+        "the parent-side merge of the workers' infos: all infos of a split "
+        "are grouped before merging (not only adjacent ones), the merge "
+        "keeps the accounting invariant and re-attaches only fresh child "
+        "records (same checks as C04.dump / C04.fresh / C04.delta)")
     # pickling
     drops = [m for m in ("__getstate__", "__reduce__", "__reduce_ex__",
                          "__setstate__") if m in filler.methods]
